@@ -403,6 +403,7 @@ class Service(object):
         last_block = None
         last_txid = None
         if self.min_providers <= 1 and not (after_txid and not db_addr) and caching_enabled:
+            has_results = len(self.results) > 0  # self.blockcount() may query providers and reset self.results
             last_block = self.blockcount()
             last_txid = qry_after_txid
             self.complete = True
@@ -411,7 +412,7 @@ class Service(object):
                 last_block = txs[-1:][0].block_height
             if len(txs):
                 last_txid = bytes.fromhex(txs[-1:][0].txid)
-            if len(self.results):
+            if has_results:
                 index = 0
                 for t in txs:
                     if t.confirmations != 0:
